@@ -149,6 +149,7 @@ def flat_cluster(method, threshold, matrix, taxa=None, revert=False):
 
     """
     if method == 'ward':
+        matrix = [[cell for cell in line] for line in matrix]
         for i, line in enumerate(matrix):
             for j, cell in enumerate(line):
                 if i < j:
